@@ -126,6 +126,7 @@ func (k msgServer) Complete(goCtx context.Context, msg *types.MsgComplete) (*typ
 			orderInProgress, _ = k.order.GetOrder(ctx, oldShard.OrderId)
 			orderList = append(orderList, &orderInProgress)
 		}
+		startedUnder := shard.OrderId
 		shard.OrderId = oldShard.OrderId
 		shard.RenewInfos = oldShard.RenewInfos
 		shard.CreatedAt = uint64(ctx.BlockHeight())
@@ -170,6 +171,31 @@ func (k msgServer) Complete(goCtx context.Context, msg *types.MsgComplete) (*typ
 			}
 			order.Shards = newShards
 			k.order.SetOrder(ctx, *order)
+		}
+		// the order the migration was started under may have ended meanwhile (its period rotated
+		// into a renewal while the migration was pending): it no longer pays for the shard
+		// and must not keep listing it, nor stay behind with nothing else to its name
+		if startedUnder != shard.OrderId {
+			handled := false
+			for _, o := range orderList {
+				if o.Id == startedUnder {
+					handled = true
+				}
+			}
+			if startedOrder, found := k.order.GetOrder(ctx, startedUnder); found && !handled {
+				rest := make([]uint64, 0)
+				for _, id := range startedOrder.Shards {
+					if id != shard.Id && id != oldShard.Id {
+						rest = append(rest, id)
+					}
+				}
+				if len(rest) == 0 {
+					k.order.RemoveOrder(ctx, startedOrder.Id)
+				} else {
+					startedOrder.Shards = rest
+					k.order.SetOrder(ctx, startedOrder)
+				}
+			}
 		}
 	} else {
 		shard.CreatedAt = uint64(ctx.BlockHeight())
